@@ -260,7 +260,89 @@ def opus_rule(prog, run):
     run.check(sorted(seen) == [0, 1, 2, 3] and all(v == 1 for v in seen.values()), "R6", "opus codes covered", "one success exit per TOC code 0..3", "success exits cover TOC codes %s" % sorted(seen.items()))
 
 
+KEYFRAME_REFERENCE = {"H264": "codec::h264::is_h264_keyframe", "H265": "codec::h265::is_hevc_keyframe"}
+
+
+def keyframe_classifier_rule(prog, run):
+    """R7.  `encode_video` decides by itself whether the frame is a keyframe and then enters the explicit-flag form; the first-frame
+    precondition it enforces is therefore the crate's definition of "keyframe" only if that decision is the same function of the NAL
+    header byte as the codec module's public classifier (which `validation` and the documentation use).  Both are tabulated over all
+    256 header bytes, for frames of one NAL unit and of two (keyframe NAL first / last), under the model "AnnexBNalIter yields the
+    frame's NAL units" (C14), and compared (contradiction rule: two definitions of one notion that differ - one of them is wrong)."""
+    from .. import minieval as E
+    u = prog.lib
+    ent = [f for f in u.bodies if mir.norm(f) == "api::Muxer::encode_video" and not u.bodies[f]["in_test_cfg"]]
+    codec = u.adts.get("api::VideoCodec")
+    if len(ent) != 1 or not codec:
+        run.bad("R7", "anchor encode_video", "encode_video / VideoCodec not found")
+        return
+    names = [v["name"] for v in codec["variants"]]
+
+    def machine(capture):
+        m = E.Machine(u, models={"codec::common::AnnexBNalIter::new": lambda m_, a, d: E.OnceIter(list(getattr(a[0], "nals", [])))})
+        m.pred_models.append((lambda n: "AnnexBNalIter" in n and n.endswith("::next"), E._next))
+
+        def wv(m_, a, d):
+            capture.append(a[3] if len(a) > 3 else None)
+            return E.Adt("Result", 0, [E.UNIT])
+        m.models["api::Muxer::write_video"] = wv
+        return m
+
+    def frame(heads):
+        fr = E.Bytes([0, 0, 0, 1, heads[0]], minlen=5 * len(heads), tag="frame")
+        fr.nals = [E.Bytes([h], minlen=1, tag="nal") for h in heads]
+        return fr
+
+    def api_flag(vi, heads):
+        cap = []
+        m = machine(cap)
+        m.call_fn(ent[0], [E.Record({"video_track.codec": E.Adt("api::VideoCodec", vi)}), frame(heads), E.Opaque("duration")])
+        if len(cap) != 1 or not isinstance(cap[0], int):
+            raise E.Unsupported("encode_video does not pass one decided keyframe flag to write_video (captured %r)" % (cap,))
+        return cap[0], m.trace
+
+    def ref_flag(fn, heads):
+        m = machine([])
+        r = m.call_fn(fn, [frame(heads)])
+        if not isinstance(r, int):
+            raise E.Unsupported("%s does not return a decided bool" % fn)
+        return r, m.trace
+    n = 0
+    for cname, ref in sorted(KEYFRAME_REFERENCE.items()):
+        if cname not in names:
+            run.bad("R7", "codec %s" % cname, "VideoCodec::%s not found" % cname)
+            continue
+        vi = names.index(cname)
+        try:
+            t_ref = [ref_flag(ref, [b])[0] for b in range(256)]
+            nonkey = t_ref.index(0)
+            diffs = []
+            fns = set()
+            for b in range(256):
+                for heads in ([b], [nonkey, b], [b, nonkey]):
+                    a, tr = api_flag(vi, heads)
+                    fns.update(tr)
+                    r = t_ref[b] if len(heads) == 1 else ref_flag(ref, heads)[0]
+                    if a != r:
+                        diffs.append((heads, a, r))
+                    n += 1
+        except E.Unsupported as e:
+            run.bad("R7", "keyframe classifier %s" % cname, "cannot tabulate the %s keyframe decision (fail closed): %s" % (cname, e), mir.loc_of(u.bodies[ent[0]]))
+            continue
+        if cname == "H264":
+            types = sorted({h[-1 if len(h) == 1 else (1 if h[0] == nonkey else 0)] & 0x1F for h, a, r in diffs})
+        else:
+            types = sorted({(h[-1 if len(h) == 1 else (1 if h[0] == nonkey else 0)] >> 1) & 0x3F for h, a, r in diffs})
+        run.check(not diffs, "R7", "encode_video keyframe decision %s" % cname, "equals %s on all 256 NAL header bytes, 1- and 2-NAL frames (interpreted: %s)" % (ref, ", ".join(sorted(fns))[:200]),
+                  "for %s, encode_video's own keyframe decision differs from %s for NAL unit types %s (e.g. a frame with NAL header bytes %s: encode_video says %s, the codec module says %s): a first frame of such a type is %s by encode_video although write_video with the matching flag %s it"
+                  % ((cname, ref, types, [hex(x) for x in diffs[0][0]], bool(diffs[0][1]), bool(diffs[0][2]), "rejected" if not diffs[0][1] else "accepted", "accepts" if not diffs[0][1] else "would reject") if diffs else ("",) * 8),
+                  mir.loc_of(u.bodies[ent[0]]))
+    run.floor("R7", n, 2 * 256 * 3, "(codec, frame shape, header byte) evaluations")
+
+
 def check(prog, run):
+    run.rule("R7", "sibling classifiers: encode_video's keyframe decision equals the codec module's public keyframe classifier as a function of the NAL header byte (all 256 values, H.264 and H.265)")
+    keyframe_classifier_rule(prog, run)
     run.rule("R6", "Opus framing (RFC 6716 section 3.2): frame count and VBR flag per TOC code; code 3 reads M = byte1 & 0x3F, v = byte1 >> 7 (evaluated for all 256 values of the extracted expressions)")
     opus_rule(prog, run)
     run.rule("R1", "guard table: every documented precondition has an error exit of the documented variant under the documented predicate (canonical relation incl. strictness); no undocumented explicit rejection")
